@@ -290,6 +290,45 @@ def scaled(d):
     return not all(_isclose1(f) for fr in axis_fracs(d) for f in fr)
 
 
+
+def corner_indices(d):
+    """Flat C-order indices of the entries of a uniform-grid leaf that lie on a SCALED boundary
+    side (fraction not close to 1) in at least two axes (edges / corners)."""
+    if d[0] not in ('U', 'G') or not scaled(d):
+        return []
+    shape = leaf_shape(d)
+    fr = axis_fracs(d)
+    out = []
+    for pos, idx in enumerate(itertools.product(*[range(n) for n in shape])):
+        cnt = 0
+        for ax, i in enumerate(idx):
+            n = shape[ax]
+            if n > 1 and ((i == 0 and not _isclose1(fr[ax][0])) or
+                          (i == n - 1 and not _isclose1(fr[ax][1]))):
+                cnt += 1
+        if cnt >= 2:
+            out.append(pos)
+    return out
+
+
+def stratum_hits(ctx, d, op, vals):
+    """Record that `op` was evaluated (real code and model) on a discretized leaf with boundary
+    nodes on >= 2 axes and a non-zero value at an edge/corner entry."""
+    if d[0] not in ('U', 'G'):
+        return
+    ci = corner_indices(d)
+    if not ci or not any(vals[i] != 0 for i in ci):
+        return
+    nd = '3d' if len(leaf_shape(d)) >= 3 else '2d'
+    p = d_p(d)
+    if op == 'norm':
+        op = 'norm-p2' if p == 2 else 'norm-pfinite'
+    ctx.hit('stratum/discr-{}/bdry-axes>=2/nonzero-corner/{}'.format(op, nd))
+
+
+STRATA = ['stratum/discr-{}/bdry-axes>=2/nonzero-corner/{}'.format(op, nd)
+          for op in ('inner', 'norm-p2', 'norm-pfinite', 'dist') for nd in ('2d', '3d')]
+
 def _wkind(wt):
     return 'const' if wt is None or wt[0] == 'c' else 'arr'
 
@@ -363,7 +402,7 @@ def _expected_branches():
     return out
 
 
-EXPECTED_BRANCHES = _expected_branches()
+EXPECTED_BRANCHES = _expected_branches() + STRATA
 
 def is_exact(d):
     """All weights dyadic with few bits: float arithmetic of inner products is exact."""
@@ -418,6 +457,10 @@ def rand_leaf_vals(d, rng, mode):
         re = [0] * size
         im = [0] * size
         re[rng.choice([0, size - 1, rng.randrange(size)])] = rng.choice([1, -2, 4])
+    elif mode == 'corner':     # non-zero only in the two extreme corners of the array
+        re = [0] * size
+        im = [0] * size
+        re[0], re[-1] = rng.choice([1, 2, -3]) * den, rng.choice([1, -2, 4]) * den
     elif mode == 'one':
         re = [den] * size
         im = [0] * size
@@ -624,7 +667,7 @@ def tensor_zoo(ctx, thr):
             ('T', (thr // 250 + 1, 250), 'float64', 'F', ('c', 2.0), 2),
             ('T', (thr // 250 + 1, 250), 'float64', 'C',
              mk_wt(rng, 'array', (thr // 250 + 1, 250), 'float64'), 2)]
-    out += keep + bigs[:(4 if quick else 40)]
+    out += (keep[:2] + keep[4:] if quick else keep) + bigs[:(1 if quick else 40)]
     return out
 
 
@@ -699,6 +742,17 @@ def discr_zoo(ctx):
     for n, l, r, p in [(5, 1, 1, 2), (4, 1, 0, 2), (3, 0, 1, 1), (5, 1, 1, 3)]:
         a, b = exact_extent(rng, n, l, r)
         out.append(('U', [(a, b, n, l, r)], 'int64', 'C', None, p))
+    # boundary nodes on >= 2 axes (edges / corners are scaled by the PRODUCT of the fractions:
+    # apply_on_boundary(only_once=False)), every exponent class, 2-d and 3-d, fixed in every tier
+    for specs_flags in [[(3, 1, 1), (3, 1, 1)], [(3, 0, 1), (4, 1, 0)], [(2, 1, 1), (3, 1, 0)],
+                        [(2, 1, 1), (3, 1, 1), (2, 1, 0)], [(3, 0, 1), (2, 1, 0), (3, 1, 1)]]:
+        for p in [2, 1, 3, 1.5]:
+            for dt in (['float64', 'complex128'] if p == 2 else ['float64']):
+                specs = []
+                for n, l, r in specs_flags:
+                    a, b = exact_extent(rng, n, l, r, avoid_one=True)
+                    specs.append((a, b, n, l, r))
+                out.append(('U', specs, dt, rng.choice(['C', 'F']), None, p))
     # 2-d: all 16 flag combinations
     combos = list(itertools.product(flags, flags))
     for f0, f1 in combos:
@@ -946,8 +1000,12 @@ def run_case(ctx, d, vseed, lines, recs, collect=True):
         recs.append((d, rep, 'info', oi[1] if oi[0] == 'ok' else oi[0], False, 1.0, RTOL))
     try:
         modes = ['rand', 'rand', 'rand']
-        special = rng.choice(['none', 'zero', 'spike', 'one', 'none'])
-        x, X = make_elem(d, space, rng, special if special != 'none' else 'rand')
+        # x, y, z are ALWAYS random (non-zero corners/edges almost surely): they carry the
+        # comparison with the documented sums and with the model; a special element (zero,
+        # single spike, constant one) is checked in addition, never instead
+        special = rng.choice(['zero', 'spike', 'one', 'corner'])
+        x, X = make_elem(d, space, rng, 'rand')
+        sx, SX = make_elem(d, space, rng, special)
         y, Y = make_elem(d, space, rng, 'rand', flip=rng.random() < 0.4)
         z, Z = make_elem(d, space, rng, 'rand', flip=rng.random() < 0.2)
     except Exception as e:  # noqa
@@ -985,6 +1043,13 @@ def run_case(ctx, d, vseed, lines, recs, collect=True):
             rxy = ref_inner(d, X, Y)
             rxx = ref_inner(d, X, X)
             nontrivial = rxy != (0, 0) or rxx != (0, 0)
+            if flat_size(d) <= 2000:
+                rzy = ref_inner(d, Z, Y)
+                refc = complex(float(rzy[0]), float(rzy[1]))
+                if (cfrac(izy) != rzy) if exact else \
+                        (not close(izy, refc, scale=math.sqrt(abs(iyy) * max(abs(izy), 1.0)))):
+                    bad('inner != documented weighted sum',
+                        'inner(z,y)={} expected {}'.format(izy, refc))
             if exact:
                 if cfrac(ixy) != rxy:
                     bad('inner != documented weighted sum',
@@ -1026,6 +1091,7 @@ def run_case(ctx, d, vseed, lines, recs, collect=True):
             if collect:
                 lines.append('inner sp={} x={} y={}'.format(spec, cwire(X), cwire(Y)))
                 recs.append((d, rep, 'inner', ixy, exact, scale, crt))
+                stratum_hits(ctx, d, 'inner', [u * v for u, v in zip(X, Y)])
     else:
         o_xy = outcome(lambda: x.inner(y))
         if o_xy[0] == 'ok':
@@ -1053,6 +1119,9 @@ def run_case(ctx, d, vseed, lines, recs, collect=True):
         nontrivial = nontrivial or rn != 0
         if not close(nx, rn):
             bad('norm != documented weighted p-norm', 'norm(x)={!r} expected {!r}'.format(nx, rn))
+        if flat_size(d) <= 2000 and not close(nz, ref_norm(d, Z)):
+            bad('norm != documented weighted p-norm',
+                'norm(z)={!r} expected {!r}'.format(nz, ref_norm(d, Z)))
         if not close(nax, abs(a) * nx):
             bad('norm not absolutely homogeneous', 'norm(a*x)={!r} |a|*norm(x)={!r} a={}'.format(
                 nax, abs(a) * nx, a))
@@ -1066,6 +1135,7 @@ def run_case(ctx, d, vseed, lines, recs, collect=True):
         if collect:
             lines.append('norm sp={} x={}'.format(spec, cwire(X)))
             recs.append((d, rep, 'norm', nx, False, scale, crt))
+            stratum_hits(ctx, d, 'norm', X)
 
     # ---- dist
     o_dxy = outcome(lambda: x.dist(y))
@@ -1087,9 +1157,52 @@ def run_case(ctx, d, vseed, lines, recs, collect=True):
             bad('dist not symmetric', '{!r} vs {!r}'.format(dxy, dyx))
         if dxx != 0:
             bad('dist(x,x) != 0', repr(dxx))
-        if collect:
+        if collect and not (ctx.quick and flat_size(d) > 2000):
+            # (large arrays: the size regime only concerns _inner_default / nrm2; the quick
+            # tier sends their inner and norm lines only)
             lines.append('dist sp={} x={} y={}'.format(spec, cwire(X), cwire(Y)))
             recs.append((d, rep, 'dist', dxy, False, scale, crt))
+            stratum_hits(ctx, d, 'dist', [u - v for u, v in zip(X, Y)])
+
+    # ---- the special element: documented sums, definiteness
+    szero = all(v == 0 for v in SX)
+    if hasin:
+        o_sy, o_ss = outcome(lambda: sx.inner(y)), outcome(lambda: sx.inner(sx))
+        if o_sy[0] != 'ok' or o_ss[0] != 'ok':
+            bad('inner raised', 'special element {}: {} {}'.format(special, o_sy, o_ss)[:200])
+        else:
+            isy, iss = complex(o_sy[1]), complex(o_ss[1])
+            rsy, rss = ref_inner(d, SX, Y), ref_inner(d, SX, SX)
+            for got, ref, nm in ((isy, rsy, 'inner(s,y)'), (iss, rss, 'inner(s,s)')):
+                refc = complex(float(ref[0]), float(ref[1]))
+                if (cfrac(got) != ref) if exact else \
+                        (not close(got, refc, scale=math.sqrt(abs(float(rss[0])) * max(
+                            abs(complex(o_yy[1])) if o_yy[0] == 'ok' else 1.0, 1e-300)))):
+                    bad('inner != documented weighted sum',
+                        '{} for the {} element = {} expected {}'.format(nm, special, got, refc))
+            if abs(iss.imag) > otol * abs(iss) or iss.real < 0 or ((iss.real == 0) != szero):
+                bad('inner(x,x) not positive definite',
+                    'inner(s,s)={} for the {} element'.format(iss, special))
+    o_ns = outcome(lambda: sx.norm())
+    if o_ns[0] != 'ok':
+        bad('norm raised', 'special element {}: {}'.format(special, o_ns)[:200])
+    else:
+        ns, rns = float(o_ns[1]), ref_norm(d, SX)
+        if not close(ns, rns):
+            bad('norm != documented weighted p-norm',
+                'norm(s)={!r} expected {!r} for the {} element'.format(ns, rns, special))
+        if ns < 0 or ((ns == 0) != szero):
+            bad('norm not positive definite', 'norm(s)={!r} for the {} element'.format(ns, special))
+
+    # ---- <1, 1> = volume of the domain (default weighting, exponent 2)
+    if d[0] in ('U', 'G') and d[d_wt(d)] is None and p == 2:
+        o11 = outcome(lambda: space.one().inner(space.one()))
+        vol = float(volume(d))
+        if o11[0] != 'ok':
+            bad('inner raised', 'one().inner(one()): {}'.format(o11)[:160])
+        elif not close(complex(o11[1]), vol, rel=1e-9 if not near1(d) else 3e-5):
+            bad('<1,1> != volume of the domain', 'one().inner(one())={} volume={!r} fractions={}'
+                .format(o11[1], vol, outcome(lambda: space.partition.boundary_cell_fractions)[1]))
 
     # ---- ||1||^p = volume of the domain (default cell-volume weighting)
     if d[0] in ('U', 'G') and d[d_wt(d)] is None and p != INF:
